@@ -173,6 +173,34 @@ def check_c01_c02(c, result):
         c.tie(tq5, res5, ip5, model5, result)
         oracle(c, tq5, res5, model5, result, c.files, k5)
         c.stats['mixed_mechanism_queries'] = len(tq5)
+    # (2c) three FROM entities joined by comparisons BETWEEN entities, written in every order relative to FROM
+    # (what a per-entity pre-filter or a join planner has to get right); the three least populous kinds
+    bykind0 = Counter(engine.hexs(n['type']) for n in c.nodes)
+    small3 = sorted([k for k in kinds2 if bykind0.get(k, 0) >= 2], key=lambda k: bykind0[k])[:3]
+    tq6, k6 = [], {}
+    if len(small3) == 3:
+        import itertools as _it
+        for i, perm in enumerate(list(_it.permutations(small3))[: 6 if c.tier == 'quick' else 6]):
+            for j in range(2 if c.tier == 'quick' else 8):
+                (ka, kb, kc) = perm
+                aa, ab, ac = 'a', 'b', 'c'
+                acc = {k_: c.rng.choice(querygen.KINDS[k_][0]) for k_ in perm}
+                # the comparison names the LATER entity first, with different accessors on the two sides
+                pairs = [(ab, kb, aa, ka), (ac, kc, aa, ka), (ac, kc, ab, kb)]
+                (x, kx, y, ky) = pairs[(i + j) % 3]
+                op = ['==', '!=', '<='][j % 3]
+                join = '%s.%s() %s %s.%s()' % (x, acc[kx], op, y, acc[ky])
+                (z, kz) = [(ac, kc), (ab, kb), (aa, ka)][(i + j) % 3]
+                third = '%s.%s() != %s' % (z, acc[kz], querygen.lit(c.gen.value_for(kz, acc[kz]).replace('\n', ' ')))
+                w = [join + ' && ' + third, third + ' && ' + join, '(' + join + ') && !(' + third + ')'][j % 3]
+                qid = 'j%d_%d' % (i, j)
+                tq6.append((qid, 'FROM %s AS a, %s AS b, %s AS c WHERE %s SELECT a.%s(), b.%s(), c.%s()' % (ka, kb, kc, w, acc[ka], acc[kb], acc[kc])))
+                k6[qid] = 3
+        res6, ip6, _ = c.run(tq6)
+        model6 = c.model(tq6)
+        c.tie(tq6, res6, ip6, model6, result)
+        oracle(c, tq6, res6, model6, result, c.files, k6)
+        c.stats['three_entity_join_queries'] = len(tq6)
     # (3) no-WHERE queries: exactly the cross product
     qs3 = gen_queries(c, 20 if c.tier == 'quick' else 200, prefix='n', where=False, npreds=0)
     tq3 = [(qid, text_of(q, c.rng)) for qid, q in qs3]
@@ -423,14 +451,23 @@ def check_c13(c, result):
               'formals_renamed': HAS + P + Q2 + frm + 'pp(%s, %s) || qq(%s, %s)' % (m, v1, m, v2) + tail,
               'unused_between': HAS + P + UNUSED + Q + frm + 'pp(%s, %s) || qq(%s, %s)' % (m, v1, m, v2) + tail,
               'same_wrapper_twice': HAS + P + frm + 'pp(%s, %s) || !pp(%s, %s)' % (m, v1, m, v2) + tail}
-        for tag, grp in (('a', ga), ('b', gb)):
+        # two predicates of one name with different numbers of parameters, one delegating to the other
+        OV1 = 'predicate ov(%s a) { a.%s() == %s } ' % (K, acc, v1)
+        OV2 = 'predicate ov(%s a, %s b) { ov(a) && b.%s() != %s } ' % (K, K, acc, v2)
+        OV2i = 'predicate ov(%s a, %s b) { a.%s() == %s && b.%s() != %s } ' % (K, K, acc, v1, acc, v2)
+        gc = {'orig': frm + '%s.%s() == %s && %s.%s() != %s' % (m, acc, v1, m, acc, v2) + tail,
+              'overload_delegates': OV1 + OV2 + frm + 'ov(%s, %s)' % (m, m) + tail,
+              'overload_declared_in_reverse': OV2 + OV1 + frm + 'ov(%s, %s)' % (m, m) + tail,
+              'overload_inner_inlined': OV1 + OV2i + frm + 'ov(%s, %s)' % (m, m) + tail,
+              'overload_both_called': OV1 + OV2 + frm + 'ov(%s) && ov(%s, %s)' % (m, m, m) + tail}
+        for tag, grp in (('a', ga), ('b', gb), ('c', gc)):
             ids = {}
             for name, text in grp.items():
                 qid = 'n%d%s_%s' % (gi, tag, name)
                 ids[name] = qid
                 tq.append((qid, text))
             groups.append((ids, 1))
-        c.stats['c13_nested_value_groups'] += 2
+        c.stats['c13_nested_value_groups'] += 3
     res, ip, _ = c.run(tq)
     model = c.model(tq)
     c.tie(tq, res, ip, model, result)
@@ -472,7 +509,7 @@ def check_c14(c, result):
     for qid, q in qs:
         toks = querygen.query_tokens(q)
         ids = []
-        for j, style in enumerate(['plain', 'tight', 'wild', 'wild', 'wild']):
+        for j, style in enumerate(['plain', 'tight', 'wild', 'wild', 'wild', 'cr', 'tab', 'lf']):
             vid = '%s_%d' % (qid, j)
             tq.append((vid, querygen.render(toks, c.rng, style)))
             ids.append(vid)
@@ -584,6 +621,9 @@ def check_c15(c, result):
             if 'file' in mode:
                 outf = c.work + '/out_%s_%s.txt' % (qid, mode.replace('+', '_'))
                 args += ['--output-file', outf]
+                # the file already exists and is longer than any report (a results file re-used between runs)
+                with open(outf, 'w') as fh_:
+                    fh_.write('{"stale": "%s"}\n\tFile: stale.java, Line: 1 \n' % ('x' * 400000))
             if 'verbose' in mode:
                 args += ['--verbose']
             rc, out, err = run(args, timeout=120, env=dict(ENV, HOME=c.work))
@@ -969,6 +1009,28 @@ def check_c10_c11(c, result):
                                               how='pathfinder query --project D --output json --query <query>; exit status / panic'))
                 break
     if pid == 'C10':
+        # the console: sessions with unusual lines (very long: past every buffer size a reader might have; CRLF;
+        # empty; only blanks; no final newline after :quit) — every submitted line is answered and the session ends
+        # with :quit
+        ok_q = 'FROM class_declaration AS cd SELECT cd.getName()'
+        sessions = []
+        for size in (4096, 65536, 70000, 262144, 1100000) if c.tier == 'thorough' else (4096, 65536, 70000, 300000):
+            longq = 'FROM class_declaration AS cd WHERE cd.getName() == "%s" SELECT cd.getName()' % ('a' * size)
+            sessions.append(('long query %d' % size, [ok_q, longq, ok_q]))
+            sessions.append(('long garbage %d' % size, [ok_q, 'x' * size, ok_q]))
+        sessions.append(('crlf', [ok_q + '\r', 'FROM WHERE\r', ok_q + '\r']))
+        sessions.append(('blank lines', [ok_q, '', '   ', '\t', ok_q]))
+        for name, lines in sessions:
+            data = ('\n'.join(lines) + '\n:quit\n').encode()
+            for chunking in ('one',):
+                answered = console_run(c, data, chunking)
+                c.stats['console_sessions'] += 1
+                if answered != len(lines):
+                    result.violations.append(dict(property='C10', what='the console answered %d of %d submitted lines (%s)' % (answered, len(lines), name),
+                                                  stdin_lines=[l if len(l) < 200 else l[:80] + '... (%d bytes)' % len(l) for l in lines] + [':quit'],
+                                                  project=[(p, d.decode('utf-8', 'replace')) for p, d in c.files],
+                                                  how='pipe the lines into `pathfinder query --stdin --project D --output json` and count the "Executing query:" banners'))
+                    break
         # the same queries once more in text mode (outcome class only).  The text report is assembled by repeated
         # string concatenation (quadratic in its size), so combinations in the hundreds of thousands take
         # minutes there: those answers are legitimate, only slow, and are left out here
